@@ -30,7 +30,7 @@ SLACK = 1.05           # DESIGN 3/C15: 5 % on the bounded-variation bound
 RND = 1e-9             # relative rounding allowance on a column density
 
 
-_MEM_CAP = 6 * 2**30
+_MEM_CAP = 3 * 2**30
 _guarded = []
 
 
@@ -694,6 +694,9 @@ def check_slant_invariance(case, rec):
     # density of the top shell and zero: one half node spacing (<= step) of top-shell
     # material is the discretisation freedom between two equivalent calls.
     tol = 100.0 * top * step * (1 + 1e-9) + RND * x0
+    # a shell touched within 1e-6 m at the closest approach: one node (spacing <= 2 step)
+    # sits on either side of it depending on rounding
+    tol += 100.0 * ref.graze_jump(model, g) * 2 * step
     q = g["L"] / step if g["L"] > 0 else 0.5
     if _ambiguous(g):
         # entering or not is decided by rounding: one node (spacing <= 2 step) may or may
@@ -797,7 +800,7 @@ PROPERTY = Property(
                       "negative, outside, ints) passed as float / np.float64 / int / 0-d array; "
                       "non-trivial = a radius on or 1 ulp from a shell or the centre, or radii of "
                       ">=2 of inside/outside/negative",
-                 floors={"on_shell": 0.25, "ulp_from_shell": 0.25, "outside": 0.25,
+                 floors={"on_shell": 0.2, "ulp_from_shell": 0.18, "outside": 0.2,
                          "negative": 0.2, "centre": 0.05}),
         SubCheck("density_array", density_array_cases(), check_density_array,
                  quick=3000, thorough=150000,
@@ -814,7 +817,7 @@ PROPERTY = Property(
                       "quadrature integral within the bounded-variation trapezoid bound; "
                       "non-trivial = chord enters the Earth and crosses >=1 shell boundary",
                  floors={"tangential": 0.05, "vertical": 0.05, "shorter_than_step": 0.02,
-                         "crosses_shell": 0.2, "starts_outside": 0.03, "grazes_shell": 0.04,
+                         "crosses_shell": 0.15, "starts_outside": 0.03, "grazes_shell": 0.04,
                          "nonunit": 0.15, "miss": 0.03}),
         SubCheck("slant_zero", zero_cases(), check_slant_zero, quick=3000, thorough=150000,
                  rule="chords built to miss (surface point going up, outside point going away, "
@@ -828,7 +831,7 @@ PROPERTY = Property(
                       "direction rotated about the polar axis, with the direction rotated about the "
                       "local vertical, and as tuple/ndarray; non-trivial = slant depth > 100x the "
                       "allowed difference",
-                 floors={"resolving": 0.25, "offset_xy": 0.3, "scale>100x": 0.2}),
+                 floors={"resolving": 0.25, "offset_xy": 0.3, "scale>100x": 0.15}),
         SubCheck("slant_monotone", monotone_cases(), check_slant_monotone,
                  quick=2400, thorough=120000,
                  rule="one endpoint, two directions at zenith angles a1<a2 from the local vertical "
